@@ -27,6 +27,7 @@ Apply(e) ==
       [] e.ev = "fire"   -> PFire(e.id, e.what)
       [] e.ev = "quiet"  -> PQuiet(SeqToSet(e.blk))
       [] e.ev \in {"leak", "note", "end"} -> UNCHANGED pvars
+      [] e.ev \in {"step", "teardown"} -> UNCHANGED pvars   \* only in traces recorded for CContainerXTrace
       [] OTHER           -> PUnexplained
 
 TStep ==
